@@ -6,7 +6,7 @@ from . import _session_common as sc
 PROP = "C08"
 BUDGET = {"quick": 900, "thorough": 25000}
 ALARM_S = 900
-RULE = ("seeded histories of up to 12 operations mixing mutators (add event / transition / birth-death through every "
+RULE = ("seeded histories of up to 12 operations (22 in the thorough tier) mixing mutators (add event / transition / birth-death through every "
         "add_* route, add explicit ODE term, add parameter (+ its value), add derived parameter, change parameter values "
         "by full list or partial dict) with observations of a random subset of the 11 compiled evaluators in random order, "
         "K-seam faults on every recompile, and with a second live model in the same process (another client's never-modified "
@@ -28,7 +28,7 @@ def gen_history(rng, model, names, params, tier):
     cur_params = list(params)
     derived = [d[0] for d in model.get("derived", [])]
     nproc = len(model["processes"])
-    length = rng.randint(3, 12)
+    length = rng.randint(3, 12) if tier != "thorough" else rng.randint(3, 22)
     extra_names = ["zeta", "omega", "tau1", "phi", "chi"]
     extra_derived = ["dz", "dw", "dv"]
     pending_value = None
